@@ -112,7 +112,13 @@ func (g *gen) refTarget(self int, label string, kinds ...string) (genType, bool)
 	if len(cand) == 0 {
 		return genType{}, false
 	}
-	return cand[g.intn(len(cand), label)], true
+	c := cand[g.intn(len(cand), label)]
+	if c.kind == "regex" && !g.chance(1, 3, "allowRegexRef") {
+		// references to regex user types make example strings unstable (known
+		// finding F35); keep them, but rarer
+		return genType{}, false
+	}
+	return c, true
 }
 
 func (g *gen) propVal(self int, depth int) Val {
@@ -158,7 +164,7 @@ func (g *gen) propVal(self int, depth int) Val {
 // index; two bases only when neither has bases of its own (no diamonds).
 func (g *gen) obj(self int, depth int, allowAllOf bool) *Obj {
 	o := &Obj{}
-	if allowAllOf && g.chance(2, 5, "allOf") {
+	if allowAllOf && g.chance(1, 2, "allOf") {
 		var leaf, any []genType
 		for i := self + 1; i < len(g.types); i++ {
 			if g.types[i].kind == "obj" {
@@ -177,7 +183,18 @@ func (g *gen) obj(self int, depth int, allowAllOf bool) *Obj {
 			}
 			o.AllOf = []string{leaf[i].name, leaf[j].name}
 		case len(any) >= 1:
-			o.AllOf = []string{any[g.intn(len(any), "b")].name}
+			// prefer a base that has bases itself (chains of depth >= 2)
+			var chained []genType
+			for _, x := range any {
+				if x.hasAll {
+					chained = append(chained, x)
+				}
+			}
+			if len(chained) > 0 && g.chance(1, 2, "chain") {
+				o.AllOf = []string{chained[g.intn(len(chained), "cb")].name}
+			} else {
+				o.AllOf = []string{any[g.intn(len(any), "b")].name}
+			}
 		}
 	}
 	np := 1 + g.intn(3, "nprops")
@@ -391,7 +408,7 @@ func (g *gen) paste(m *genMacro) *Dir {
 func GenDoc(t *rapid.T, o GenOpts) *Doc {
 	g := &gen{t: t, o: o, enumV: map[string]string{}}
 	if o.MaxTypes == 0 {
-		o.MaxTypes = 6
+		o.MaxTypes = 7
 	}
 	doc := &Doc{}
 	doc.Top = append(doc.Top, g.newDir("JSIGHT", "0.3"))
